@@ -562,14 +562,21 @@ func DeriveDevice(t *tape.Tape, k Knobs, b *GConf) (*GConf, []string) {
 	}
 	nEdits := t.Next(k.MaxEdits + 1)
 	for i := 0; i < nEdits; i++ {
-		op := t.Next(16)
+		op := t.Next(18)
 		switch {
 		case op <= 6 && len(a.ACLs) > 0 && k.Shaped: // shape-preserving line edits
 			acl := &a.ACLs[t.Next(len(a.ACLs))]
 			lo, hi := permitBlock(acl.Lines)
 			switch op {
 			case 0:
-				if hi-lo > 1 {
+				if t.Next(4) == 0 && lo > 0 && hi-lo > 2 {
+					// A run across the border of deny block and permit block:
+					// the target inserts a hunk of mixed actions.
+					from := lo - 1 - t.Next(min(lo, 2))
+					to := lo + 1 + t.Next(min(hi-lo-1, 2))
+					acl.Lines = append(acl.Lines[:from:from], acl.Lines[to:]...)
+					ops = append(ops, fmt.Sprintf("del run %d..%d across the deny/permit border of %s", from, to-1, acl.Name))
+				} else if hi-lo > 1 {
 					j := lo + t.Next(hi-lo)
 					acl.Lines = append(acl.Lines[:j:j], acl.Lines[j+1:]...)
 					ops = append(ops, fmt.Sprintf("del permit %d of %s", j, acl.Name))
@@ -616,10 +623,20 @@ func DeriveDevice(t *tape.Tape, k Knobs, b *GConf) (*GConf, []string) {
 		case op <= 6 && len(a.ACLs) > 0: // line edits
 			acl := &a.ACLs[t.Next(len(a.ACLs))]
 			switch op {
-			case 0: // delete a line
+			case 0: // delete a line, or a run of lines (the target then inserts a hunk)
 				if len(acl.Lines) > 1 {
 					j := t.Next(len(acl.Lines))
-					acl.Lines = append(acl.Lines[:j:j], acl.Lines[j+1:]...)
+					n := 1
+					if t.Next(3) == 0 {
+						n = 2 + t.Next(3)
+					}
+					if j+n > len(acl.Lines) {
+						n = len(acl.Lines) - j
+					}
+					if n == len(acl.Lines) {
+						n--
+					}
+					acl.Lines = append(acl.Lines[:j:j], acl.Lines[j+n:]...)
 					if !allRemarks(acl.Lines) {
 						ops = append(ops, fmt.Sprintf("del line %d of %s", j, acl.Name))
 					} else {
@@ -669,6 +686,98 @@ func DeriveDevice(t *tape.Tape, k Knobs, b *GConf) (*GConf, []string) {
 						ops = append(ops, fmt.Sprintf("flip line %d of %s", j, acl.Name))
 					}
 				}
+			}
+		case op >= 16 && len(a.ACLs) > 0 && !k.Shaped:
+			// A line of the target is missing on the device and a line of the
+			// opposite action lies on the other side of that position: the
+			// tool has to insert one and move the other across it.
+			acl := &a.ACLs[t.Next(len(a.ACLs))]
+			if t.Next(2) == 0 {
+				// target: A(x) B(x) C(!x) E(x)  ->  device: E A   (B, C missing, E in A's block)
+				var at []int
+				for i := 0; i+3 < len(acl.Lines); i++ {
+					l := acl.Lines[i : i+4]
+					if l[0].Remark == "" && l[1].Remark == "" && l[2].Remark == "" && l[3].Remark == "" &&
+						l[0].Permit == l[1].Permit && l[1].Permit != l[2].Permit && l[3].Permit == l[0].Permit {
+						at = append(at, i)
+					}
+				}
+				if len(at) > 0 {
+					i := at[t.Next(len(at))]
+					e, first := acl.Lines[i+3], acl.Lines[i]
+					var l []GACE
+					l = append(l, acl.Lines[:i]...)
+					if t.Next(2) == 0 {
+						l = append(l, e, first)
+					} else {
+						l = append(l, first, e)
+					}
+					l = append(l, acl.Lines[i+4:]...)
+					// Instead of C the device may have a wider line of C's action
+					// on top, so that old and new verdict agree where C and E overlap.
+					if t.Next(2) == 0 {
+						w := acl.Lines[i+2]
+						w.Log = ""
+						if w.Dst.Kind != "any" {
+							w.Dst = GAddr{Kind: "any"}
+						} else {
+							w.Src = GAddr{Kind: "any"}
+						}
+						if !hasDup(l, w, -1) && !hasDup(acl.Lines, w, -1) {
+							l = append([]GACE{w}, l...)
+						}
+					}
+					acl.Lines = l
+					ops = append(ops, fmt.Sprintf("lines %d,%d of %s missing, line %d sits in the block above them", i+1, i+2, acl.Name, i+3))
+				}
+				break
+			}
+			var cand [][2]int
+			for i, d := range acl.Lines {
+				for j, m := range acl.Lines {
+					if i != j && d.Remark == "" && m.Remark == "" && d.Permit != m.Permit {
+						cand = append(cand, [2]int{i, j})
+					}
+				}
+			}
+			if len(cand) > 0 && len(acl.Lines) > 2 {
+				x := cand[t.Next(len(cand))]
+				i, j := x[0], x[1]
+				mv := acl.Lines[j]
+				// Often a second line of the missing line's action is missing,
+				// too, so that one block is split more than once.
+				i2 := -1
+				if t.Next(2) == 0 {
+					var more []int
+					for n, e := range acl.Lines {
+						if n != i && n != j && e.Remark == "" && e.Permit == acl.Lines[i].Permit {
+							more = append(more, n)
+						}
+					}
+					if len(more) > 0 && len(acl.Lines) > 3 {
+						i2 = more[t.Next(len(more))]
+					}
+				}
+				var l []GACE
+				pos := 0 // where the missing line was, seen in the list without the removed ones
+				for n, e := range acl.Lines {
+					if n == i || n == j || n == i2 {
+						continue
+					}
+					if n < i {
+						pos++
+					}
+					l = append(l, e)
+				}
+				if j > i {
+					// moved line was below: put it somewhere above
+					pos = t.Next(pos + 1)
+				} else {
+					// moved line was above: put it somewhere below
+					pos = pos + t.Next(len(l)-pos+1)
+				}
+				acl.Lines = append(l[:pos:pos], append([]GACE{mv}, l[pos:]...)...)
+				ops = append(ops, fmt.Sprintf("line %d of %s missing and line %d on the other side of it", i, acl.Name, j))
 			}
 		case op == 7 && len(a.Groups) > 0: // group member add / remove
 			gr := &a.Groups[t.Next(len(a.Groups))]
